@@ -109,10 +109,14 @@ def main():
         "setup_cmd": "./setup.sh",
         "hooks": {
             "guard": "verif",
-            "enable": "go build -tags verif (both the simulator module, which links /repo's packages through a replace directive, and /repo/cmd/atlas)",
+            "enable": "go build -tags verif (both the simulator module, which links /repo's packages through a replace directive, and /repo/cmd/atlas). Hook commits: e9ed651 adds simPoint call lines and the verif_on/verif_off files (add-only); 58e2b3f and d7c61ff are the clock seam: besides new files they replace time.Now() by simNow() on four existing lines (identity with the guard off), which is why add_only is false",
             "baseline_off_cmd": BASELINE_OFF,
             "source_commits": hooks_commits,
-            "add_only": True,
+            # e9ed651 only adds call lines and files. The two clock-seam commits (58e2b3f, d7c61ff) also
+            # rewrite four existing lines: time.Now() becomes simNow() in migrate.NewVersion, in the
+            # formatters' "now" template function and twice in the SQLite driver's Lock / acquireLock
+            # (simNow is time.Now in regular builds) - a call cannot be put behind a seam by adding lines.
+            "add_only": False,
         },
         "engines": ENGINES,
         "checks": checks,
